@@ -122,12 +122,11 @@ func ParseUIntVal(buf []byte, offs int, pcl *PUIntBody) (int, ErrorHdr) {
 				pcl.soffs = i
 				pcl.UIVal = uint32(c - '0')
 			case clFound:
-				v := pcl.UIVal*10 + uint32(c-'0')
-				if pcl.UIVal > v {
-					// overflow
+				// exact overflow test: would UIVal*10 + digit exceed 2^32-1 ?
+				if pcl.UIVal > (^uint32(0)-uint32(c-'0'))/10 {
 					return i, ErrHdrNumTooBig
 				}
-				pcl.UIVal = v
+				pcl.UIVal = pcl.UIVal*10 + uint32(c-'0')
 			case clEnd:
 				// error, stuff found after callid end (WS in callid ?)
 				return i, ErrHdrBadChar
